@@ -239,10 +239,22 @@ func runProperty(cfg RunConfig, evidencePath, knownPath, baselinePath string, up
 	baseline := map[string][]string{}
 	loadJSON(baselinePath, &baseline)
 	inBase := map[string]bool{}
+	baseFuncs := map[string]bool{}
 	for _, n := range baseline[cfg.Prop] {
 		inBase[n] = true
+		baseFuncs[funcOfObl(n)] = true
 	}
 	haveBase := len(inBase) > 0
+	// A frame obligation is only emitted when the function writes something its modifies clause
+	// does not list; on the baseline tree most functions have none, i.e. their frame held
+	// trivially. The frame of every function verified on the baseline is therefore part of
+	// the baseline whether or not an obligation was emitted for it.
+	isBase := func(name string) bool {
+		if inBase[name] {
+			return true
+		}
+		return strings.Contains(name, "/frame#") && baseFuncs[funcOfObl(name)]
+	}
 
 	generated := map[string]bool{}
 	var proved, failed []*OblResult
@@ -333,7 +345,7 @@ func runProperty(cfg RunConfig, evidencePath, knownPath, baselinePath string, up
 			fmt.Printf("VIOLATION property=%s replay=%s\n", cfg.Prop, iv.file)
 			fmt.Printf("  obligation %s: %s [%s] — %s\n", name, iv.r.Desc, iv.r.Pos, iv.detail)
 			violations++
-		case haveBase && inBase[name]:
+		case haveBase && isBase(name):
 			fmt.Printf("VIOLATION property=%s replay=%s no-failing-input-found\n", cfg.Prop, iv.file)
 			fmt.Printf("  obligation %s (discharged on the baseline tree) now fails: %s [%s], solver says %s\n", name, iv.r.Desc, iv.r.Pos, iv.r.Fail.Status)
 			violations++
@@ -371,8 +383,9 @@ func runProperty(cfg RunConfig, evidencePath, knownPath, baselinePath string, up
 	var missing []string
 	for n := range inBase {
 		// implicit safety and call-site obligations depend on the shape of the code; only
-		// contract clauses (post-conditions, loop invariants, frames) must keep existing
-		if !generated[n] && (strings.Contains(n, "/post#") || strings.Contains(n, "/inv") || strings.Contains(n, "/frame#")) {
+		// contract clauses (post-conditions, loop invariants) must keep existing; a frame obligation
+		// that is no longer emitted holds trivially
+		if !generated[n] && (strings.Contains(n, "/post#") || strings.Contains(n, "/inv")) {
 			missing = append(missing, n)
 		}
 	}
